@@ -1,5 +1,5 @@
 (* C13 - bucket handle lifecycle. Property theorems only; proofs in RegProofs.v. *)
-From Rosmar Require Import Base Registry RegProofs.
+From Rosmar Require Import Base Registry RegProofs RegModes.
 
 (* the reference count of a registered bucket is exactly the number of handles opened on it and not
    yet closed - after any history of opens (every mode), closes, repeated closes, deletes and writes
@@ -21,3 +21,108 @@ Print Assumptions C13_close_is_local.
 Theorem C13_invariant_reachable : forall ops, ops_ok rstate0 ops -> rinv (rfinal rstate0 ops).
 Proof. intros ops H. exact (reachable_rinv ops rstate0 rinv0 H). Qed.
 Print Assumptions C13_invariant_reachable.
+
+(* ---- open modes ---- *)
+
+(* every reachable state satisfies the three invariants the theorems below assume *)
+Theorem C13_invariants_reachable : forall ops, ops_ok rstate0 ops ->
+  let s := rfinal rstate0 ops in rinv s /\ dense s /\ bounded s.
+Proof.
+  intros ops H. split; [exact (reachable_rinv ops rstate0 rinv0 H) | split; [exact (reachable_dense ops rstate0 dense0) | exact (reachable_bounded ops rstate0 bounded0)]].
+Qed.
+Print Assumptions C13_invariants_reachable.
+
+(* what OpenBucket answers, for every mode, URL, name, in-memory or on disk, in every such state: CreateNew
+   succeeds iff the bucket does not exist (name not registered and, on disk, no directory); ReOpenExisting iff it
+   exists and is not open at another URL; CreateOrOpen unless it is open at another URL; with the errors named *)
+Theorem C13_open_modes : forall s mem url name mode, rinv s -> dense s ->
+  snd (do_open s mem url name mode) =
+    (if match mode with
+        | CreateNew => negb (bucket_exists s mem url name)
+        | ReOpenExisting => bucket_exists s mem url name && negb (at_other_url s mem url name)
+        | CreateOrOpen => negb (at_other_url s mem url name)
+        end
+     then RROpened (next_id (r_handles s))
+     else RRErr (match mode with
+                 | CreateNew => REExist
+                 | _ => if at_other_url s mem url name then REOtherUrl else RENotExist
+                 end)).
+Proof. exact open_outcome. Qed.
+Print Assumptions C13_open_modes.
+
+Theorem C13_create_new_fails_iff_exists : forall s mem url name, rinv s -> dense s ->
+  is_opened (snd (do_open s mem url name CreateNew)) = negb (bucket_exists s mem url name).
+Proof. exact create_new_fails_iff_exists. Qed.
+Print Assumptions C13_create_new_fails_iff_exists.
+
+Theorem C13_reopen_fails_iff_missing : forall s mem url name, rinv s -> dense s -> at_other_url s mem url name = false ->
+  is_opened (snd (do_open s mem url name ReOpenExisting)) = bucket_exists s mem url name.
+Proof. exact reopen_fails_iff_missing. Qed.
+Print Assumptions C13_reopen_fails_iff_missing.
+
+Theorem C13_other_url_refused : forall s mem url name mode, rinv s -> dense s -> at_other_url s mem url name = true ->
+  snd (do_open s mem url name mode) = RRErr (match mode with CreateNew => REExist | _ => REOtherUrl end).
+Proof. exact other_url_refused. Qed.
+Print Assumptions C13_other_url_refused.
+
+(* a refused open leaves registry, handles, stores and directories exactly as they were *)
+Theorem C13_refused_open_changes_nothing : forall s mem url name mode,
+  is_opened (snd (do_open s mem url name mode)) = false -> fst (do_open s mem url name mode) = s.
+Proof. exact refused_open_is_identity. Qed.
+Print Assumptions C13_refused_open_changes_nothing.
+
+(* ---- a closed handle ---- *)
+
+(* Close closes the handle; whatever happens afterwards - any calls through any handles - it stays closed, and
+   every call through it answers "bucket closed" and changes nothing *)
+Theorem C13_close_closes : forall s h hd, get_handle s h = Some hd -> closed_handle (fst (do_close s h)) h.
+Proof. exact close_closes. Qed.
+Print Assumptions C13_close_closes.
+
+Theorem C13_closed_is_final : forall ops s h, closed_handle s h -> closed_handle (rfinal s ops) h.
+Proof. exact closed_forever. Qed.
+Print Assumptions C13_closed_is_final.
+
+Theorem C13_closed_handle_refuses : forall s h k v, closed_handle s h -> do_write s h k v = (s, RRErr REClosed).
+Proof. exact closed_handle_refuses. Qed.
+Print Assumptions C13_closed_handle_refuses.
+
+(* ---- what survives, what is removed ---- *)
+
+Theorem C13_close_keeps_disk : forall s h, r_disk (fst (do_close s h)) = r_disk s.
+Proof. exact close_keeps_disk. Qed.
+Print Assumptions C13_close_keeps_disk.
+
+Theorem C13_close_keeps_memory : forall s h hd x, get_handle s h = Some hd -> get_inst s (h_inst hd) = Some x -> i_mem x = true ->
+  let s' := fst (do_close s h) in
+  r_buckets s' = r_buckets s /\ get_inst s' (h_inst hd) = Some x.
+Proof. exact close_keeps_memory. Qed.
+Print Assumptions C13_close_keeps_memory.
+
+(* opening a name that is not registered on a directory: the new handle works and shows what the directory holds *)
+Theorem C13_reopen_sees_disk : forall s url name mode, rinv s -> bounded s ->
+  alookup String.eqb name (r_buckets s) = None ->
+  is_opened (snd (do_open s false url name mode)) = true ->
+  let s' := fst (do_open s false url name mode) in
+  let h := next_id (r_handles s) in
+  status s' h = HLive false url /\
+  data_of s' h = Some (match alookup String.eqb url (r_disk s) with Some d => d | None => [] end).
+Proof. exact open_unregistered_on_disk. Qed.
+Print Assumptions C13_reopen_sees_disk.
+
+Theorem C13_delete_removes : forall s h hd x, get_handle s h = Some hd -> get_inst s (h_inst hd) = Some x ->
+  let s' := fst (do_close_and_delete s h) in
+  alookup String.eqb (h_name hd) (r_buckets s') = None
+  /\ (i_mem x = false -> alookup String.eqb (i_url x) (r_disk s') = None)
+  /\ bucket_exists s' (i_mem x) (i_url x) (h_name hd) = false.
+Proof. exact cad_removes. Qed.
+Print Assumptions C13_delete_removes.
+
+(* non-vacuity: write, close the last handle, reopen - the premises of C13_reopen_sees_disk hold and the data is there *)
+Example C13_reopen_example :
+  let s := rfinal rstate0 [ROpen false "U0" "nA" CreateNew; RWrite 0 "k" "v"; RClose 0] in
+  alookup String.eqb "nA" (r_buckets s) = None
+  /\ is_opened (snd (do_open s false "U0" "nA" ReOpenExisting)) = true
+  /\ data_of (fst (do_open s false "U0" "nA" ReOpenExisting)) 1 = Some [("k", "v")]
+  /\ is_opened (snd (do_open s false "U0" "nA" CreateNew)) = false.
+Proof. vm_compute. repeat split. Qed.
